@@ -14,3 +14,45 @@ theorem C06_comment_emits_only_comment (e : Env) (n : ANode) : Post (convComment
   convComment_soft e n
 
 end Typstyle
+
+namespace Typstyle
+open Pretty
+
+/-- T6.2a: a line comment is printed as one atom holding exactly its text (nothing is reworded,
+nothing is absorbed into it). -/
+theorem C06_line_comment_text (e : Env) (n : ANode) (h : n.kind = .lineComment) :
+    convComment e n = pure ⟨e.cmt n.text, mkText_closed _ _ _⟩ := by
+  simp [convComment, h]
+
+/-- T6.2b: the document of a line comment is, in every layout, the single atom `n.text` tagged comment. -/
+theorem C06_comment_atom (e : Env) (s : String) (hs : s.isEmpty = false) (m : Mode) (xs : List Atom)
+    (h : Lay m (e.cmt s) xs) : xs = [.txt s .comment] := by
+  simp only [Env.cmt, mkText, hs] at h
+  cases h
+  rfl
+
+/-- T6.2c: every line of a multi-line block comment is emitted: the first unchanged, each
+continuation line with the common indentation removed (`alignStep`) — only leading blanks of
+continuation lines can change, never the text after them. -/
+theorem C06_block_comment_line (e : Env) (leading : Nat) (doc : Doc) (i : Nat) (l : String) (hi : i ≠ 0)
+    (hl : l.utf8ByteSize > leading) :
+    alignStep e leading (doc, i) l = ((doc ++ Pretty.hardline) ++ e.cmt (String.ofList (l.toList.drop leading)), i + 1) := by
+  have : (i == 0) = false := by simpa using hi
+  simp [alignStep, this, hl]
+
+theorem C06_block_comment_first_line (e : Env) (leading : Nat) (doc : Doc) (l : String) :
+    alignStep e leading (doc, 0) l = (doc ++ e.cmt l, 1) := by
+  simp [alignStep]
+
+/-- A comment is converted where it stands in the flow of its parent: the flow stylist pushes the
+comment's document at the comment's position among the children (no reordering inside a flow). -/
+theorem C06_flow_keeps_comment_position {σ : Type} (e : Env) (ctx : Ctx)
+    (producer : σ → Ctx → ANode → M (σ × Option FlowItem)) (acc : FSt σ) (child : ANode)
+    (hk : isCommentKind child.kind = true) (hkw : child.kind.isKeyword = false) :
+    flowStepM e ctx producer acc child =
+      (do let d ← convCommentT e child
+          pure { acc with flow := acc.flow.pushComment d (child.kind == .blockComment),
+                          peekLC := child.kind == .lineComment, peekHash := false }) := by
+  simp [flowStepM, hk, hkw]
+
+end Typstyle
